@@ -78,29 +78,28 @@ func checkOntKeyHeightOrder(c *core.Ctx) {
 	c.Decide(okSame && n == 1, "C31.key-height-order", ser, "the list written is the very slice that was sorted", c.P.Rel(ser.Pos()), sprintf("%d element write(s)", n))
 	// FindKeyHeight: first element with height > v is returned
 	okFirst := false
-	for _, b := range find.Blocks {
-		for _, in := range b.Instrs {
-			r, ok := in.(*ssa.Return)
-			if !ok || len(r.Results) != 2 || !ir.IsNilConst(r.Results[1]) {
-				continue
-			}
-			// returned value is the loop element, under height > element
-			if len(b.Preds) != 1 {
-				continue
-			}
-			iff, isIf := b.Preds[0].Instrs[len(b.Preds[0].Instrs)-1].(*ssa.If)
-			if !isIf {
-				continue
-			}
-			cmp, isB := iff.Cond.(*ssa.BinOp)
-			if !isB || b.Preds[0].Succs[0] != b {
-				continue
-			}
-			hp := paramByName(find, "height")
-			if (cmp.Op == token.GTR && ir.Strip(cmp.X) == ssa.Value(hp) && cmp.Y == r.Results[0]) || (cmp.Op == token.LSS && ir.Strip(cmp.Y) == ssa.Value(hp) && cmp.X == r.Results[0]) {
-				okFirst = true
+	{
+		hp := paramByName(find, "height")
+		nRet := 0
+		okAll := true
+		for _, bb := range find.Blocks {
+			for _, in := range bb.Instrs {
+				r, ok := in.(*ssa.Return)
+				if !ok || len(r.Results) != 2 || !ir.IsNilConst(r.Results[1]) {
+					continue
+				}
+				nRet++
+				// the value answered is a list element, and the return is reached only under height > that element
+				// (any spelling of the comparison; the element may be loaded again for the return)
+				elem := r.Results[0]
+				g := relGuard("height > element", func(v ssa.Value) bool { return hp != nil && ir.Strip(v) == ssa.Value(hp) },
+					func(v ssa.Value) bool { return v == elem || sameValue(v, elem) }, token.GTR)
+				if !quietDominates(find, g, ir.Sink{Instr: r}) {
+					okAll = false
+				}
 			}
 		}
+		okFirst = nRet > 0 && okAll
 	}
 	c.Decide(okFirst, "C31.key-height-order", find, "FindKeyHeight answers the first stored key height strictly below the header height", c.P.Rel(find.Pos()), "")
 }
